@@ -49,6 +49,7 @@ class IfWriteHandler(AbstractWriteHandler):
     ):
         super().__init__(start_vertex, decompiler, parent)
         self.ended_on_jump = True
+        self._vertex_after_else_if_chain: Vertex | None = None
 
     def write_content(self) -> Vertex | None:
         op: SsbLabelJump = self.start_vertex["op"]
@@ -110,10 +111,13 @@ class IfWriteHandler(AbstractWriteHandler):
             ), f"Invalid if-structure for if {m.if_id}"
 
             if v_after_if_branch is None:
-                if v_after_else_branch is None and else_ends_on_common_vtx and else_edge is not None:
+                if v_after_else_branch is None and else_ends_on_common_vtx:
                     # The if block ended on a jump and there is no else block: when the condition does not hold the code
                     # continues at the end label of the if, so that is where the block around us has to go on.
-                    return else_edge.target_vertex
+                    if else_edge is not None:
+                        return else_edge.target_vertex
+                    # (The same after a chain of elseif blocks without an else block.)
+                    return self._vertex_after_else_if_chain
                 return v_after_else_branch
             return v_after_if_branch
 
@@ -225,6 +229,8 @@ class IfWriteHandler(AbstractWriteHandler):
                     if isinstance(eop, SsbLabel) and eop.id in self.decompiler.labels_already_printed:
                         return else_edge
                     else:
+                        # No else block: when none of the conditions holds, the code continues at the end label.
+                        self._vertex_after_else_if_chain = else_edge.target_vertex
                         return None
                 else:
                     return None
